@@ -93,11 +93,18 @@ func (m *SubackMessage) Decode(src []byte) (int, error) {
 		return total, err
 	}
 
+	if len(src) < total+2 {
+		return total, fmt.Errorf("suback/Decode: Insufficient buffer size. Expecting %d, got %d", total+2, len(src))
+	}
+
 	//this.packetId = binary.BigEndian.Uint16(src[total:])
 	m.packetID = src[total : total+2]
 	total += 2
 
 	l := int(m.remlen) - (total - hn)
+	if l < 0 {
+		return total, fmt.Errorf("suback/Decode: Remaining length (%d) too small for packet ID", m.remlen)
+	}
 	m.returnCodes = src[total : total+l]
 	total += len(m.returnCodes)
 
